@@ -6,6 +6,7 @@ import (
 	"encoding/json"
 	"fmt"
 	"io"
+	"math"
 	"os"
 	"path/filepath"
 	"regexp"
@@ -46,10 +47,32 @@ func load(r io.Reader, typ string) (map[string]any, error) {
 	case "J":
 		decoder := json.NewDecoder(r)
 		err := decoder.Decode(&result)
+		// JSON has only one kind of number; give whole numbers their integer
+		// type back so that they are compared and written like the ones the
+		// TOML and YAML readers deliver
+		wholeNumbersToInts(result)
 		return result, err
 	default:
 		panic("shouldn't happen: bad filetype to load")
 	}
+}
+
+func wholeNumbersToInts(v any) any {
+	switch x := v.(type) {
+	case map[string]any:
+		for k, e := range x {
+			x[k] = wholeNumbersToInts(e)
+		}
+	case []any:
+		for i, e := range x {
+			x[i] = wholeNumbersToInts(e)
+		}
+	case float64:
+		if x == math.Trunc(x) && math.Abs(x) < 1<<53 {
+			return int64(x)
+		}
+	}
+	return v
 }
 
 func getType(filename string) string {
